@@ -229,6 +229,30 @@ def repo_tests(ctx, binp, report):
     return {"n": len(cases), "defined": ndef}
 
 
+def vacuity_audit(ctx):
+    """-coverage 1 over a sample of every family: which parts of Shaper.tla were never evaluated?"""
+    rng = random.Random(ctx.seed)
+    cases = []
+    for name, fams, alpha, ql, tl in PLANS:
+        cs = sc.build(fams)
+        rng.shuffle(cs)
+        cases += cs[:25]
+    cases += sc.build(["malformed"])          # the total-semantics branches (C07's subject)
+    for i, c in enumerate(cases):
+        c["id"] = i + 1
+    mod, cfg = sc.render_module("ShaperMC", cases, [1, 2, 3, 4, 5, 6], 3)
+    res = ctx.tlc("ShaperMC", cfg="ShaperMC.cfg", workers=ctx.workers, timeout=1500, coverage=True,
+                  files={"ShaperMC.tla": mod, "ShaperMC.cfg": _cfg(cfg, INVS, None)},
+                  label="Shaper vacuity audit (-coverage 1)")
+    if res.violated:
+        raise vlib.Infra("Shaper.tla violates %s in the coverage run" % res.violated)
+    zero = sorted(set(z for z in res.coverage_zero_expr if z.endswith("module Shaper")))
+    ctx.cov["vacuity"] = {"actions_never_taken": res.coverage_zero, "shaper_expressions_never_evaluated": len(zero),
+                          "first": zero[:12]}
+    if res.coverage_zero:
+        raise vlib.Infra("actions never taken in the coverage run: %s" % res.coverage_zero)
+
+
 def run(ctx):
     binp = ctx.build("c06")
     report = make_reporter(ctx, binp, "C06", ("mismatch", "panic", "hang", "textloss"))
@@ -247,6 +271,8 @@ def run(ctx):
             tot["n"] += s["n"]
             tot["defined"] += s["defined"]
     rt = random_v(ctx, binp, ctx.pick(400, 6000), ctx.pick(10, 16), report)
+    if not ctx.quick():
+        vacuity_audit(ctx)
     ctx.cov["evaluations"] = tot["n"] + rt["n"] + rt0["n"]
     ctx.cov["distinct_nontrivial"] = tot["defined"] + rt["defined"] + rt0["defined"]
     ctx.cov["outside_region"] = tot["n"] - tot["defined"] + rt["n"] - rt["defined"]
